@@ -6,7 +6,7 @@
 //	c28stress EBMID                                                  deterministic EventsBuffer mid-push scenario
 //	c28stress SNAPMID                                                deterministic Flushable.GetSnapshot vs Flush scenario (parent snapshot blocks)
 //
-// components: flushable lazy pool wlru sem buffer.  The real lachesis-base objects are driven by
+// components: flushable lazy pool wlru sem buffer snap.  The real lachesis-base objects are driven by
 // <threads> goroutines; every goroutine executes a list of operations that is a function of the
 // seed only (the interleaving is the scheduler's).  In LIN mode every call is bracketed by two
 // ticks of one atomic logical clock; the resulting invocation/response history is searched for a
@@ -71,6 +71,8 @@ func newComponent(name string, seed int64, threads int) component {
 		return newSem()
 	case "buffer":
 		return newBuffer(seed)
+	case "snap":
+		return newSnap()
 	}
 	fmt.Fprintln(os.Stderr, "unknown component", name)
 	os.Exit(2)
